@@ -471,7 +471,22 @@ func checkLiteralEscapes(c *Ctx) {
 	}
 	// stringToDFA ranges over the runes of its parameter directly
 	direct := false
-	if fd := FuncDecl(sp, "", "stringToDFA"); fd != nil {
+	var litFn *ast.FuncDecl
+	// the literal-to-automaton function: func(string) *DFA (the pattern function also returns an error)
+	AllFuncDecls(sp, func(f *ast.FuncDecl) {
+		if f.Recv != nil || f.Body == nil {
+			return
+		}
+		sig := info.Defs[f.Name].(*types.Func).Type().(*types.Signature)
+		if sig.Params().Len() == 1 && isString(sig.Params().At(0).Type()) && sig.Results().Len() == 1 {
+			if pt, ok := sig.Results().At(0).Type().(*types.Pointer); ok {
+				if _, n := namedTypeName(pt.Elem()); n == "DFA" {
+					litFn = f
+				}
+			}
+		}
+	})
+	if fd := litFn; fd != nil {
 		c.Analysed(funcKey(sp, fd))
 		param := info.Defs[fd.Type.Params.List[0].Names[0]]
 		ast.Inspect(fd.Body, func(n ast.Node) bool {
@@ -483,10 +498,10 @@ func checkLiteralEscapes(c *Ctx) {
 			return true
 		})
 	} else {
-		c.Lost("R3.3", "stringToDFA")
+		c.Lost("R3.3", "the literal-to-automaton function func(string) *DFA")
 		return
 	}
-	c.Check("R3.3", "the literal's automaton spells the definition's value rune by rune", FuncDecl(sp, "", "stringToDFA").Pos(), direct, "stringToDFA does not range over the runes of its parameter")
+	c.Check("R3.3", "the literal's automaton spells the definition's value rune by rune", litFn.Pos(), direct, "the literal-to-automaton function does not range over the runes of its parameter")
 	c.Extra("string_escape_admitted", admits)
 	c.Extra("unescape_steps_found", transforms)
 }
